@@ -59,24 +59,15 @@ Theorem C20_sound_URI_reference : forall s, bytes_ok s -> uri_accepts TURI_refer
 Proof. exact UriSoundRef.sound_URI_reference. Qed.
 Print Assumptions C20_sound_URI_reference.
 
-(* ---- completeness is FALSE for the URI forms: "//1.2.3.4a" is an RFC URI-reference (host = reg-name) that
-        the shipped grammar rejects, because uri::host = sor< IP_literal, IPv4address, reg_name > commits to the
-        IPv4address prefix.  Engine verdict and matcher verdict are both computed (vm_compute). ---- *)
-Theorem C20_complete_refuted :
-  exists s, bytes_ok s /\ matches (rfc TURI_reference) s /\ uri_rejects TURI_reference s /\ ~ uri_accepts TURI_reference s.
-Proof. exact UriProof.complete_refuted. Qed.
-Print Assumptions C20_complete_refuted.
-
-(* the same defect on "a://1.2.3.4a" for the other two URI forms *)
-Theorem C20_complete_refuted_URI :
-  exists s, bytes_ok s /\ matches (rfc TURI) s /\ uri_rejects TURI s /\ ~ uri_accepts TURI s.
-Proof. exact UriProof.complete_refuted_URI. Qed.
-Print Assumptions C20_complete_refuted_URI.
-
-Theorem C20_complete_refuted_absolute_URI :
-  exists s, bytes_ok s /\ matches (rfc Tabsolute_URI) s /\ uri_rejects Tabsolute_URI s /\ ~ uri_accepts Tabsolute_URI s.
-Proof. exact UriProof.complete_refuted_absolute_URI. Qed.
-Print Assumptions C20_complete_refuted_absolute_URI.
+(* ---- the former counter-examples to completeness of the URI forms ("//1.2.3.4a", "a://1.2.3.4a": host = reg-name with
+        an IPv4address as proper prefix) are ACCEPTED by the table regenerated from the repaired uri.hpp (/repo b222ba6;
+        recorded as fixed in known_findings.json).  Engine verdict and matcher verdict are both computed (vm_compute). ---- *)
+Theorem C20_host_prefix_accepted :
+  matches (rfc TURI_reference) UriProof.host_witness /\ uri_accepts TURI_reference UriProof.host_witness /\
+  matches (rfc TURI) UriProof.host_witness_abs /\ uri_accepts TURI UriProof.host_witness_abs /\
+  matches (rfc Tabsolute_URI) UriProof.host_witness_abs /\ uri_accepts Tabsolute_URI UriProof.host_witness_abs.
+Proof. exact UriProof.host_prefix_accepted. Qed.
+Print Assumptions C20_host_prefix_accepted.
 
 (* ---- IPv4address is exact: accepted iff derivable from RFC 3986 IPv4address ---- *)
 Theorem C20_complete_IPv4address : forall s, bytes_ok s -> matches (rfc TIPv4address) s -> uri_accepts TIPv4address s.
@@ -121,9 +112,8 @@ Print Assumptions C20_numeral_dec_octet.
 
    C20_complete_partial (URI, URI_reference, absolute_URI), the statement that is expected to be TRUE:
        forall t s, t is one of TURI / TURI_reference / Tabsolute_URI -> bytes_ok s -> matches (rfc t) s ->
-         ~ (the RFC reading of s has an authority whose host is a reg-name with an IPv4address as PROPER prefix) ->
          uri_accepts t s.
-     The unrestricted statement is refuted (C20_complete_refuted, _URI, _absolute_URI).  Missing: the certificate of
+     (Before /repo b222ba6 this was refuted by host = reg-name with an IPv4address as proper prefix.)  Missing: the certificate of
      UriComplete.v covers neither star / plus (needs a termination argument: fuel >= input length) nor must / if_must
      (needs "an alternative that is not the right one fails WITHOUT raising", i.e. a commit-point analysis), and the
      host rule needs the hypothesis above threaded through the quotient condition of its sor.  What IS closed towards
